@@ -1,2 +1,3 @@
+@property
 def spec(self):
     return self.get_neuron(self.__feedback_neuron_name)
